@@ -97,7 +97,43 @@ def oracle(ctx, st, req, agent, rec, trace):
     return False
 
 
+def identities(ctx, r):
+    """agent identities are opaque text: with surrounding blanks, tabs, inner spaces — whatever a command records as the claimant, its reply names
+    the same text, and so does the next read (claim <id>, claim, set with a claim, new with a claim)"""
+    st = cmdrun.Store(ctx.ergo, ctx.go)
+    trace = []
+    try:
+        def ex(argv, stdin=None):
+            res = st.exec(argv, stdin); trace.append({"argv": argv, "stdin": None if stdin is None else stdin.decode(), "exit": res["exit"]}); return res
+        for ident in (" opus@host", "opus@host ", "\topus", " a b ", "x\u00a0", "\u3000wide", "plain", "  two  "):
+            ids = [json.loads(ex(["--json", "new", "task"], json.dumps({"title": "t%d" % i}).encode())["stdout"])["id"] for i in range(3)]
+            cases = [("claim-id", ["--json", "--agent", ident, "claim", ids[0]], None),
+                     ("claim", ["--json", "--agent", ident, "claim"], None),
+                     ("set-claim", ["--json", "set", ids[2]], json.dumps({"claim": ident, "state": "doing"}).encode()),
+                     ("set-agent", ["--json", "--agent", ident, "set", ids[2]], json.dumps({"state": "blocked"}).encode()),
+                     ("new-claim", ["--json", "new", "task"], json.dumps({"title": "claimed at birth", "claim": ident, "state": "doing"}).encode())]
+            for what, argv, stdin in cases:
+                res = ex(argv, stdin)
+                ctx.count(1, key=("identity", what, ident.strip() != ident, res["exit"] == 0))
+                if res["exit"] != 0:
+                    continue
+                v, prob = one_json_value(res["stdout"].encode())
+                if prob or not isinstance(v, dict) or not v.get("id"):
+                    continue
+                sh = ex(["--json", "show", v["id"]])
+                if sh["exit"] != 0:
+                    ctx.violation("C16 reply disagrees with a following read (%s)" % what, "reported id %s cannot be shown" % v["id"], {"trace": trace}); return
+                sv = json.loads(sh["stdout"])
+                said = v.get("agent_id", v.get("claimed_by"))
+                if said is not None and said != sv.get("claimed_by", ""):
+                    ctx.violation("C16 reply disagrees with a following read (%s)" % what, "the reply names the claimant %r, show --json says %r (identity given: %r)" % (said, sv.get("claimed_by"), ident),
+                                  {"trace": trace}); return
+    finally:
+        st.close()
+
+
 def run(ctx):
+    identities(ctx, gen.Rng(ctx.seed * 1000003 + 1616))
     framework.check_facts(ctx, ctx.facts, ["stdout_sites"])
     r = gen.Rng(ctx.seed * 1000003 + 16)
     for h in range(25 if ctx.quick else 400):
